@@ -50,6 +50,51 @@ SINK_METHODS = {"attach", "append_after", "chain_actions_into", "chain_actions_a
 AMBIENT = {"time", "random", "datetime", "uuid", "getpass", "socket", "secrets", "platform"}
 
 
+# hash-ordered lists handed to another object: (function, sink) -> why the order is not observable
+STORED_ORDER_TRIAGE = {
+    ("ConditionalAction.get_target_override_targets", "return list(tgts)"): "override targets are only iterated to mark states reachable / to index them one by one",
+}
+SYMBOL_SINKS = {"DFTransition"}        # constructors whose list argument is a symbol collection (compared as a set, emitted sorted: C06)
+
+
+def escaping_order(model, node, fn):
+    """Where the list built from a hash-ordered set goes, if it leaves the function as an ordered value: text of the sink, else None.
+    Not escaping: symbol collections (.on_values / DFTransition(..)), order-insensitive wrappers, locals that are only iterated."""
+    par = model.parents.get(node)
+    if isinstance(par, ast.Call):
+        callee = ast.unparse(par.func)
+        if callee in ("any", "all", "sum", "set", "frozenset", "len", "sorted", "dict", "max", "min", "next", "enumerate", "iter") or callee.endswith(".join") or callee.endswith(".update"):
+            return None
+        if callee in SYMBOL_SINKS:
+            return None
+        return f"{callee}(.. {ast.unparse(node)[:50]} ..)"
+    if isinstance(par, ast.keyword):
+        call = model.parents.get(par)
+        callee = ast.unparse(call.func) if isinstance(call, ast.Call) else "?"
+        return f"{callee}({par.arg}={ast.unparse(node)[:50]})"
+    if isinstance(par, ast.Return):
+        return f"return {ast.unparse(node)[:60]}"
+    if isinstance(par, ast.Assign):
+        tgt = par.targets[0]
+        if isinstance(tgt, ast.Attribute):
+            if tgt.attr in ("on_values", "sub_matches"):
+                return None          # symbols of a transition / alternatives of a regex node (a set again: C20.b anchor below)
+            return f"{ast.unparse(tgt)} = {ast.unparse(node)[:50]}"
+        if isinstance(tgt, ast.Name):
+            # a local: escapes if it is later handed to a constructor / returned / stored
+            for u in ast.walk(fn):
+                if isinstance(u, ast.Name) and u.id == tgt.id and isinstance(u.ctx, ast.Load):
+                    up = model.parents.get(u)
+                    if isinstance(up, ast.keyword) or isinstance(up, ast.Return):
+                        return f"{tgt.id} -> {ast.unparse(up)[:50]}"
+                    if isinstance(up, ast.Call) and u in up.args and isinstance(up.func, ast.Name) and up.func.id in model.classes and up.func.id not in SYMBOL_SINKS:
+                        return f"{tgt.id} -> {ast.unparse(up)[:50]}"
+                    if isinstance(up, ast.Assign) and up.value is u and isinstance(up.targets[0], ast.Attribute) and up.targets[0].attr not in ("on_values", "sub_matches"):
+                        return f"{tgt.id} -> {ast.unparse(up)[:50]}"
+            return None
+    return None
+
+
 def names_in(node):
     return {n.id for n in ast.walk(node) if isinstance(n, ast.Name)}
 
@@ -157,9 +202,19 @@ def run(ctx, rep, tier):
                     src = ast.unparse(parent)
                     rep.check((q, src) in PICK_TRIAGE, "C20.b", q, src + "  [pick]", f"`{src}` indexes the list of a hash-ordered set", line=node.lineno)
                 else:
-                    rep.ok("C20.b", q, inst["src"] + "  [order of symbols / states only]", nontrivial=False)
+                    esc = escaping_order(model, node, f)
+                    if esc is None:
+                        rep.ok("C20.b", q, inst["src"] + "  [order of symbols / states only]", nontrivial=False)
+                    else:
+                        rep.check((q, esc) in STORED_ORDER_TRIAGE, "C20.b", q, esc + "  [stored order]",
+                                  f"`{esc}`: the hash order of a set becomes the stored order of a value other code enumerates (e.g. the constants of an `out enum` - their numbers "
+                                  "then depend on PYTHONHASHSEED)", line=node.lineno)
             else:
-                rep.ok("C20.b", q, inst["src"][:70] + "  [comprehension over a set: feeds any()/all()/sum()/set/dict or numbering]", nontrivial=False)
+                esc = escaping_order(model, node, f) if isinstance(node, ast.ListComp) else None
+                if esc is None:
+                    rep.ok("C20.b", q, inst["src"][:70] + "  [comprehension over a set: feeds any()/all()/sum()/set/dict or numbering]", nontrivial=False)
+                else:
+                    rep.check((q, esc) in STORED_ORDER_TRIAGE, "C20.b", q, esc + "  [stored order]", f"`{esc}`: the hash order of a set becomes a stored order", line=node.lineno)
     if n_inst < 30:
         raise AnalysisError(f"C20.b: only {n_inst} set-consumption instances (floor 30)")
     rep.count("set_consumption_instances", n_inst)
